@@ -32,7 +32,9 @@ pub fn generate(g: &mut G, index: u64) -> Scenario {
     // an eighth of the programs stop stream-attached actors (incl. saturated streams): the stop
     // must get through and be a barrier there as well
     if g.chance(1, 8) {
-        return super::c13::generate(g, index);
+        let mut sc = super::c13::generate(g, index);
+        sc.profile = "C13".to_string(); // (oracles applied across profiles go by this tag)
+        return sc;
     }
     let owning = g.chance(1, 2);
     let spec = ActorSpec {
